@@ -131,9 +131,22 @@ func (k *Case) connState() string {
 	return "open"
 }
 
+// snapshot reads the client's bookkeeping; a corrupted request list (e.g. a recycled request still
+// linked) can make the accessor itself fault, which must not take the harness down: the verdict
+// comes from what the library then does with that list.
+func (k *Case) snapshot() (si *go9p.VerifClntInfo) {
+	defer func() {
+		if r := recover(); r != nil {
+			k.C.Notes = append(k.C.Notes, fmt.Sprint("VerifClntSnapshot faulted: ", r))
+			si = &go9p.VerifClntInfo{}
+		}
+	}()
+	return go9p.VerifClntSnapshot(k.C.Clnt)
+}
+
 func (k *Case) post() Event {
 	c := k.C
-	si := go9p.VerifClntSnapshot(c.Clnt)
+	si := k.snapshot()
 	pcs := make([]string, c.K)
 	for i, h := range c.callers {
 		pcs[i] = k.callerState(h)
